@@ -61,6 +61,8 @@ def gen_hist(seed: int, n: int) -> List[Dict[str, Any]]:
                 ops.append(rng.choice([["run_last", rng.choice(MODES)], ["run", rng.randint(1, max(1, sent + 2)), rng.choice(MODES)]]))
         for _ in range(rng.randint(0, 5)):
             ops.append(["run_last", rng.choice(MODES)])
+        if len(out) % 5 == 1:                    # a schedule created by a kicker and kicked by hand (CreatedSchedule.kiq)
+            ops.insert(rng.randint(0, len(ops)), ["skiq", rng.randint(1, 3)])
         if len(out) % 6 == 4:                    # a send whose argument cannot be serialised
             ops.insert(rng.randint(0, len(ops)), ["kiqbad", rng.randint(1, 3)])
         if len(out) % 3 == 1:                    # at-least-once delivery: some message is handed to the worker a second time
